@@ -46,7 +46,7 @@ Functions those changes edited (choose code elsewhere if you can): {funcs}.
 {extra}
 """
 
-EXTRA = """Find a DIFFERENT mechanism with a DIFFERENT kind of trigger. Read widely first (lexer, parser, ast, object, evaluator, built-in functions, template loading in the root package, fail/, config/, ctx/, token/, utils/), including how the pieces call each other, and read the statement of the property sentence by sentence and its "Quantified over" line dimension by dimension: pick a clause, a listed construct, a listed case or a dimension of the quantifier that none of the earlier changes attacked, or attack an attacked clause through a construct, an API entry point (EvaluateString, EvaluateFile, NewTemplate, Template.String, Template.Response, Configure, the Register*Func family) or a configuration that none of them used. Prefer a change whose trigger somebody testing this property with randomly generated templates, data and call sequences would plausibly NOT generate: a legal but unusual spelling or clause form, a rarely used built-in, directive, option or API entry point, a combination of two or three constructs, a value at a boundary of a type or a length, a name or path with an unusual shape, a particular order or repetition of calls, a file system detail, a less common Go type in the data, a particular nesting depth or count (the third of something, more than N of something), a particular position (first, last, only) of something, a size threshold. It must be something a maintainer would plausibly do (a small feature or convenience with one corner wrong, a helper extracted that is not equivalent for one caller, a data structure change, a reordered check, a library call with slightly different semantics, an early return or fast path, a cache, a 'simplification', a fixed-size buffer or limit, an error message 'improvement'). The change must still break the stated property for a whole class of inputs (say which), compile, and keep the existing suite green. In this round prefer a change that shows only AT SCALE or with UNUSUAL GO VALUES, in a single sequential call: long strings and text runs (4 KiB and more), many elements, keys, arguments, statements or files (hundreds to thousands), deep nesting (20 levels and more) of blocks, parentheses, expressions, components or data, many passes, long names and paths; numbers at the boundaries of their Go types (uint64 above MaxInt64, int8/int16 limits, float32 precision, subnormal and huge floats, negative zero); less common Go values in the data map: named types (type Celsius float64, type ID string), embedded and nested structs, pointers to pointers, interfaces holding pointers or nil pointers, []byte, fixed-size arrays, maps with many keys, unexported fields, fields with tags, nil at unusual places. Thresholds, limits, buffers, fast paths for "small" inputs, integer conversions and size-dependent algorithms are the natural places. The property must still be the one broken (say which clause), for a whole class of such inputs."""
+EXTRA = """Find a DIFFERENT mechanism with a DIFFERENT kind of trigger. Read widely first (lexer, parser, ast, object, evaluator, built-in functions, template loading in the root package, fail/, config/, ctx/, token/, utils/), including how the pieces call each other, and read the statement of the property sentence by sentence and its "Quantified over" line dimension by dimension: pick a clause, a listed construct, a listed case or a dimension of the quantifier that none of the earlier changes attacked, or attack an attacked clause through a construct, an API entry point (EvaluateString, EvaluateFile, NewTemplate, Template.String, Template.Response, Configure, the Register*Func family) or a configuration that none of them used. Prefer a change whose trigger somebody testing this property with randomly generated templates, data and call sequences would plausibly NOT generate: a legal but unusual spelling or clause form, a rarely used built-in, directive, option or API entry point, a combination of two or three constructs, a value at a boundary of a type or a length, a name or path with an unusual shape, a particular order or repetition of calls, a file system detail, a less common Go type in the data, a particular nesting depth or count (the third of something, more than N of something), a particular position (first, last, only) of something, a size threshold. It must be something a maintainer would plausibly do (a small feature or convenience with one corner wrong, a helper extracted that is not equivalent for one caller, a data structure change, a reordered check, a library call with slightly different semantics, an early return or fast path, a cache, a 'simplification', a fixed-size buffer or limit, an error message 'improvement'). The change must still break the stated property for a whole class of inputs (say which), compile, and keep the existing suite green. In this round prefer a change that shows only for a COMBINATION OF TWO OR THREE LANGUAGE FEATURES that each work alone, in a single sequential call with small inputs. Read the documentation that ships with the project (README, docs, comments, the testdata templates) to learn the features, then look for code where two of them meet: a construct nested in another (a component use inside an insert block inside a loop; an @elseif chain inside a slot body; a loop inside a loop's @else; a ternary inside an index inside a call argument; an object literal inside an array inside a component argument; a comment or a line break between the clauses of a directive; an assignment inside a @for header; break/continue under two levels of @if inside nested loops; the same slot or reserve name at two nesting levels; raw() applied to the result of a join of an array of literals; a built-in called on the result of another on the result of a property of an array element), the same construct twice in one statement (two prints in one {{ }} separated by ';', two postfix operators, two unary operators, chained ternaries, chained calls with arguments that are calls), or a construct at the edge of another (first or last statement of a block, directly before @end, directly after @else, at the very start or end of the file, adjacent to a comment). The property must still be the one broken (say which clause), for a whole class of such combinations."""
 
 
 def funcs_of(patch):
